@@ -11,9 +11,10 @@ THEOREMS = [
     "c18_to_micros_nearest", "c18_nearest_characterised", "c18_to_micros_monotone",
     "c18_round_trip", "c18_reset_never_blocks", "c18_one_fire_not_early",
     "c18_fire_not_lost", "c18_fire_enabled_at_deadline", "c18_none_after_stop",
-    "c18_timer_refines_one_shot",
+    "c18_timer_refines_one_shot", "c18_no_run_blocks", "c18_ticker_never_blocks",
+    "c18_ticker_flushes_spaced", "c18_ticker_flush_available", "c18_spacedb_is_spaced",
 ]
-HEADER = "From Shk Require Import Base.Prelude Model.Timeutil Corr.C18.\nOpen Scope Z_scope.\n"
+HEADER = "From Shk Require Import Base.Prelude Model.Timeutil Model.Ticker Corr.C18.\nOpen Scope Z_scope.\n"
 QUERIES = [
     ("Mmicro", "bad_indices micro_model_bad micro_cases"),
     ("Omicro", "bad_indices micro_oracle_bad micro_cases"),
@@ -23,6 +24,7 @@ QUERIES = [
     ("Mtimer", "bad_indices timer_model_bad timer_cases"),
     ("Otimer", "bad_indices timer_oracle_bad timer_cases"),
     ("Olat", "bad_indices latency_bad latency_cases"),
+    ("Otick", "bad_indices ticker_bad ticker_cases"),
 ]
 
 
@@ -229,9 +231,9 @@ def run(tier, seed):
     res.coverage.update({
         "evaluations": n_eval,
         "distinct_nontrivial": summary["distinct_nontrivial"],
-        "rule": "micro: every ns offset in [0,1500] u [499000,501000] u [999998000,1e9) for several second counts (negative, 0, random) + random instants biased to .5us ties and the last microsecond of a second; non-trivial = nsec not a multiple of 1000 (rounding happens). from: boundary + random int64 microsecond counts. timer: corpus + random op sequences over {Reset 1ms, Reset 1h, wait-for-fire, try-receive, Stop}; non-trivial = at least 3 operations; distinct by content.",
+        "rule": "micro: every ns offset in [0,1500] u [499000,501000] u [999998000,1e9) for several second counts (negative, 0, random) + random instants biased to .5us ties and the last microsecond of a second; non-trivial = nsec not a multiple of 1000 (rounding happens). from: boundary + random int64 microsecond counts. timer: corpus (incl. the collector's ticker loop shape Reset (wait receive Reset)^n) + random op sequences over {Reset 1ms, Reset 1h, wait-for-fire, try-receive, Stop}; non-trivial = at least 3 operations; distinct by content. ticker: the collector's flush loop on the real Timer for fixed and random periods with busy pauses; receive instants must be a period apart (spacedb).",
         "samples": summary["samples"],
-        "distribution": {k: summary[k] for k in ("micro", "from", "timer", "micro_carry_into_next_second")},
+        "distribution": {k: summary[k] for k in ("micro", "from", "timer", "ticker", "micro_carry_into_next_second")},
         "traces_validated_against_impl": summary["timer"],
         "cases_file": path,
     })
@@ -266,6 +268,12 @@ def run(tier, seed):
         c = cases["latency"][idx]
         res.violation("timer-fires-before-its-duration", "a Timer armed for %d ns delivered its tick after %d ns (-1 = never)" % (c["D"], c["Elapsed"]),
                       {"kind": "failing-input", "input": c, "replay": "go: t := timeutil.NewTimer(); start := time.Now(); t.Reset(%d); <-t.C; time.Since(start)" % c["D"]})
+    for idx in vals["Otick"][:1]:
+        c = cases["ticker"][idx]
+        res.violation("ticker-loop-flushes-not-a-period-apart-or-stuck",
+                      "the collector's ticker loop on the real Timer (Reset(%d ns); per round <-t.C; t.Read = true; Reset) received at %s ns since the start (-1 = receive or Reset never returned): not at least one period apart" % (c["P"], c["Times"]),
+                      {"kind": "failing-input", "input": c, "theorem": "c18_ticker_flushes_spaced / c18_ticker_never_blocks",
+                       "replay": "go: harness/c18 measureTicker(P, rounds, pauses)"})
     if not res.violations and not res.known:
         # model/implementation disagreement without a property failure
         for name, key in (("Mmicro", "micro"), ("Mfrom", "from"), ("Mtimer", "timer")):
